@@ -672,7 +672,7 @@ func init() {
 	register(&propertySpec{
 		ID:      "C04",
 		Explain: "Static fan-out rules for the event walk: every binding / action pair gets a child node on every iteration, each concurrently running action owns its bindings map, the goroutines' shared writes are under one mutex with a complete WaitGroup protocol, and nodes are complete only without error. Does not decide the variable environment seen by scripts, equality of tree / values / side effects, or which bindings the condition yields.",
-		Rules:   []ruleFn{ruleFanOwn, ruleFanSync, ruleFanEvery, ruleSetIfAbsent, ruleDispErr, ruleLoopAlias, ruleThunkLazy, ruleValuesOwnDisp, ruleDecodeDep, ruleIdxOrder("C04"), ruleRecoverResult, ruleModIndex("C04"), ruleQueryPure("C04"), ruleFanModeLocal, ruleWhenAgree("C04"), ruleCopyDeep, ruleCtxPerGoroutine("C04"), ruleMarshalPure("C04"), ruleRandGuard("C04"), ruleMemoKey("C04"), ruleLoopvarGo("C04"), ruleActionBindingsOwn("C04")},
+		Rules:   []ruleFn{ruleCodeBindingsOwn("C04"), ruleFanOwn, ruleFanSync, ruleFanEvery, ruleSetIfAbsent, ruleDispErr, ruleLoopAlias, ruleThunkLazy, ruleValuesOwnDisp, ruleDecodeDep, ruleIdxOrder("C04"), ruleRecoverResult, ruleModIndex("C04"), ruleQueryPure("C04"), ruleFanModeLocal, ruleWhenAgree("C04"), ruleCopyDeep, ruleCtxPerGoroutine("C04"), ruleMarshalPure("C04"), ruleRandGuard("C04"), ruleMemoKey("C04"), ruleLoopvarGo("C04"), ruleActionBindingsOwn("C04")},
 	})
 	register(&propertySpec{
 		ID:      "C05",
